@@ -30,6 +30,9 @@ type DirConfig struct {
 	FragK   int
 	LatMax  time.Duration // per-write delivery latency: 0 none
 	LatRand bool          // uniformly random in [0, LatMax] per write, else fixed
+	// EmptyReads > 0: a Read that has data available returns (0, nil) with
+	// probability 1/EmptyReads instead, never twice in a row
+	EmptyReads int
 	Faults  []Fault
 }
 
@@ -81,6 +84,7 @@ type stream struct {
 	record    bool
 	stats     *Stats
 	timerSet  bool
+	lastEmpty bool
 }
 
 // Stats counts what actually happened on a pipe (reach probes).
@@ -89,6 +93,7 @@ type Stats struct {
 	Bytes                 uint64
 	ShortReads            int // reads that returned less than was available
 	OneByteReads          int
+	EmptyReads            int
 	WriterBlocked         int
 	ReaderBlocked         int
 	FaultsFired           map[int]int
@@ -277,6 +282,14 @@ func (s *stream) read(p []byte) (int, error) {
 			return 0, io.ErrClosedPipe
 		}
 		av := s.available()
+		if av > 0 && s.cfg.EmptyReads > 0 && !s.lastEmpty && rt.Choose(rt.SNet, s.cfg.EmptyReads) == 0 {
+			// a legal io.Reader may return 0, nil once in a while (never twice in a row here)
+			s.lastEmpty = true
+			s.stats.EmptyReads++
+			rt.LogEvent('r', 0, s.delivered)
+			return 0, nil
+		}
+		s.lastEmpty = false
 		if av > 0 {
 			max := av
 			if max > len(p) {
